@@ -27,7 +27,7 @@ import (
 // ImportCase is one capture plus the way its files are handed to the importer.
 type ImportCase struct {
 	Case  ref.Case `json:"case"`
-	Batch string   `json:"batch"` // "all" = one FromPcap call with every file | "each" = one call per file, chronological
+	Batch string   `json:"batch"` // "all" = one FromPcap call with every file | "each" = one call per file, chronological | "rev" = one call per file, newest first
 }
 
 func (c ImportCase) Key() string { return c.Case.Key() + " batch=" + c.Batch }
@@ -137,6 +137,11 @@ func RunImportCase(ic ImportCase) (out outcome) {
 		for _, f := range cp.Files {
 			batches = append(batches, []string{f})
 		}
+	case "rev":
+		// one call per file, newest capture first: every later import brings packets that precede what is indexed
+		for i := len(cp.Files) - 1; i >= 0; i-- {
+			batches = append(batches, []string{cp.Files[i]})
+		}
 	default:
 		mc.Fatal("batch %q", ic.Batch)
 	}
@@ -159,7 +164,7 @@ func RunImportCase(ic ImportCase) (out outcome) {
 }
 
 func (c ImportCase) NumImports() int {
-	if c.Batch == "each" {
+	if c.Batch == "each" || c.Batch == "rev" {
 		if c.Case.Assign != "" {
 			return 3
 		}
@@ -258,6 +263,9 @@ func EnumCases(tier string) (cases []ImportCase, rule string) {
 						if len(devs) == 0 || thorough {
 							cases = append(cases, ImportCase{Case: cc, Batch: "all"})
 						}
+						if len(devs) == 0 && link == "eth" {
+							cases = append(cases, ImportCase{Case: cc, Batch: "rev"})
+						}
 					}
 				}
 			}
@@ -274,10 +282,10 @@ func EnumCases(tier string) (cases []ImportCase, rule string) {
 		"(split at every position, one-byte overlap, swap of adjacent packets except SYN/SYN-ACK/RST, retransmission full at every later position and head/tail half, "+
 		"UDP datagram duplicate, equal timestamps of neighbours; de-duplicated by resulting packet sequence). ", nsets)
 	if thorough {
-		rule += "thorough: <=1 deviation x every permitted interleaving x {one file; cut into two files at every position, imported one by one in order and in one call}; " +
+		rule += "thorough: <=1 deviation x every permitted interleaving x {one file; cut into two files at every position, imported one by one in order and in one call; default renderings also one by one newest first}; " +
 			"2 deviations under the default interleaving as one file; default renderings also with raw IPv4/IPv6 link type; 4 snapshot sets (observed conversation around/after a filler of 11120 closed connections, three files) one by one and in one call. "
 	} else {
-		rule += "quick: default rendering x every permitted interleaving x {eth, raw link} x {one file; cut at every position, imported one by one and in one call}; " +
+		rule += "quick: default rendering x every permitted interleaving x {eth, raw link} x {one file; cut at every position, imported one by one, one by one newest first, and in one call}; " +
 			"every rendering with 1 deviation (default interleaving) x {one file; cut at every position from just before the first to just after the second of the two packets the deviation is about, imported one by one}. "
 	}
 	rule += fmt.Sprintf("Both tiers: default renderings cut into three files whose first two touch (equal timestamps across the first cut), imported one by one (%d cases; quick: second cut at most 3 packets after the first, or before the last packet). ", threeTouching)
